@@ -9,7 +9,9 @@ import (
 	"fmt"
 	"math"
 	"math/big"
+	"sort"
 	"strconv"
+	"strings"
 
 	"github.com/wader/fq/internal/verif/core"
 	"github.com/wader/fq/pkg/decode"
@@ -400,6 +402,30 @@ func (e *engine) underscore(vals []*value) {
 				}
 				if j == 13 && dv.Parent == nil {
 					exp[j] = []any{nil}
+				}
+				// a value that is an object with members named like the extra keys: its own
+				// member wins (doc/usage.md: the keys are available unless the value has a key
+				// of that name; pinned by value_shadow.fqtest)
+				if m, isObj := v.want.(map[string]any); isObj {
+					own := map[string]string{"_name": "_name", "_start": "_start", "_stop": "_stop", "_len": "_len", "_gap": "_gap", "_description": "_description",
+						"_index": "_index", "_path": "_path", "_format": "_format"}
+					if k, ok := own[names[j]]; ok {
+						if mv, has := m[k]; has {
+							exp[j] = []any{mv}
+						}
+					}
+					if j == 16 {
+						var ks []any
+						for k := range m {
+							if strings.HasPrefix(k, "_") {
+								ks = append(ks, k)
+							}
+						}
+						sort.Slice(ks, func(a, b int) bool { return ks[a].(string) < ks[b].(string) })
+						if len(ks) > 0 {
+							exp[j] = []any{ks}
+						}
+					}
 				}
 				if canon(row[j], cmode{}) != canon(exp[j], cmode{}) {
 					sig := "underscore:" + names[j] + ":" + jsonType(v.want)
